@@ -13,21 +13,6 @@ Proof.
   destruct (concat_opt l) as [b|]; [|discriminate]. inversion H. eauto.
 Qed.
 
-Definition graft_list (fuel : nat) (path : list step) :=
-  fix go (l : list json) (rs : list json) {struct l} : option (list json * list json) :=
-    match l with
-    | [] => Some ([], rs)
-    | e :: t =>
-        match graft fuel e path rs with
-        | Some (e', rs') =>
-            match go t rs' with
-            | Some (t', rs'') => Some (e' :: t', rs'')
-            | None => None
-            end
-        | None => None
-        end
-    end.
-
 Lemma split_length : forall {A} (rs : list A) n m, List.length rs = n + m ->
   exists r1 r2, rs = r1 ++ r2 /\ List.length r1 = n /\ List.length r2 = m.
 Proof.
@@ -35,83 +20,111 @@ Proof.
   split; [rewrite firstn_length; lia | rewrite skipn_length; lia].
 Qed.
 
-(** [graft] consumes exactly as many results as [extract_keys] found keys, from the front. *)
-Theorem graft_consumes : forall fuel node path ks,
-  extract_keys true fuel node path = Some ks ->
-  forall rs extra node' rest, List.length rs = List.length ks ->
-    graft fuel node path (rs ++ extra) = Some (node', rest) -> rest = extra.
+(** ** unfolding equations *)
+Lemma extract_keys_arr : forall rep path l,
+  extract_keys rep path (JArr l) = concat_opt (map (extract_keys rep path) l).
+Proof. intros rep path l. destruct path as [|[name|t] rest]; reflexivity. Qed.
+
+Lemma graft_arr : forall path l rs,
+  graft path (JArr l) rs =
+  match graft_list (graft path) l rs with Some (l', rs') => Some (JArr l', rs') | None => None end.
+Proof. intros path l rs. destruct path as [|[name|t] rest]; reflexivity. Qed.
+
+Lemma extract_keys_nil_obj : forall rep kvs,
+  extract_keys rep [] (JObj kvs) = match lookup federation_field kvs with Some k => Some [k] | None => None end.
+Proof. reflexivity. Qed.
+
+Lemma extract_keys_field_obj : forall rep name rest kvs,
+  extract_keys rep (SField name :: rest) (JObj kvs) =
+  match lookup name kvs with None => None | Some next => extract_keys rep rest next end.
+Proof. reflexivity. Qed.
+
+Lemma extract_keys_type_obj : forall rep t rest kvs,
+  extract_keys rep (SType t :: rest) (JObj kvs) =
+  match lookup "__typename" kvs with
+  | Some (JStr s) => if String.eqb s t then extract_keys rep rest (JObj kvs) else Some []
+  | _ => None
+  end.
+Proof. reflexivity. Qed.
+
+Lemma graft_nil_obj : forall kvs rs,
+  graft [] (JObj kvs) rs =
+  match rs with
+  | JObj r :: rs' => match merge_result kvs r with Some kvs' => Some (JObj kvs', rs') | None => None end
+  | _ => None
+  end.
+Proof. reflexivity. Qed.
+
+Lemma graft_field_obj : forall name rest kvs rs,
+  graft (SField name :: rest) (JObj kvs) rs =
+  match lookup name kvs with
+  | None => None
+  | Some next => match graft rest next rs with
+                 | Some (next', rs') => Some (JObj (set_key name next' kvs), rs')
+                 | None => None
+                 end
+  end.
+Proof. reflexivity. Qed.
+
+Lemma graft_type_obj : forall t rest kvs rs,
+  graft (SType t :: rest) (JObj kvs) rs =
+  match lookup "__typename" kvs with
+  | Some (JStr s) => if String.eqb s t then graft rest (JObj kvs) rs else Some (JObj kvs, rs)
+  | _ => None
+  end.
+Proof. reflexivity. Qed.
+
+(** ** [graft] consumes exactly as many results as [extract_keys] found keys, from the front *)
+Definition consumes (path : list step) (node : json) : Prop :=
+  forall ks rs extra node' rest,
+    extract_keys true path node = Some ks -> List.length rs = List.length ks ->
+    graft path node (rs ++ extra) = Some (node', rest) -> rest = extra.
+
+Lemma consumes_arr : forall path l, Forall (consumes path) l -> consumes path (JArr l).
 Proof.
-  induction fuel as [|fuel IH]; intros node path ks Hk rs extra node' rest Hl Hg; [discriminate|].
-  simpl in Hk, Hg. destruct node as [| b | z | s | l | kvs].
-  - (* null *) inversion Hk; subst ks. destruct rs; [|discriminate]. inversion Hg; reflexivity.
-  - destruct path; [discriminate|]. inversion Hk; subst ks. destruct rs; [|discriminate]. inversion Hg; reflexivity.
-  - destruct path; [discriminate|]. inversion Hk; subst ks. destruct rs; [|discriminate]. inversion Hg; reflexivity.
-  - destruct path; [discriminate|]. inversion Hk; subst ks. destruct rs; [|discriminate]. inversion Hg; reflexivity.
-  - (* array *)
-    fold (graft_list fuel path) in Hg.
-    destruct (graft_list fuel path l (rs ++ extra)) as [[l' rs']|] eqn:Eg; [|discriminate].
-    inversion Hg; subst node' rest. clear Hg.
-    revert ks Hk rs extra l' rs' Hl Eg.
-    induction l as [|e t IHl]; intros ks Hk rs extra l' rs' Hl Eg; simpl in Hk, Eg.
-    + inversion Hk; subst ks. destruct rs; [|discriminate]. inversion Eg; reflexivity.
-    + apply concat_opt_cons in Hk as [k1 [k2 [Hk1 [Hk2 ->]]]].
-      rewrite app_length in Hl. destruct (split_length rs _ _ Hl) as [r1 [r2 [-> [L1 L2]]]].
-      rewrite <- app_assoc in Eg.
-      destruct (graft fuel e path (r1 ++ r2 ++ extra)) as [[e' rs1]|] eqn:E1; [|discriminate].
-      pose proof (IH e path k1 Hk1 r1 (r2 ++ extra) e' rs1 L1 E1) as ->.
-      destruct (graft_list fuel path t (r2 ++ extra)) as [[t' rs2]|] eqn:E2; [|discriminate].
-      inversion Eg; subst. eapply IHl; eauto.
-  - (* object *)
-    destruct path as [|[name|ty] restp].
-    + destruct (lookup federation_field kvs) as [k|]; [|discriminate]. inversion Hk; subst ks.
-      destruct rs as [|r [|]]; simpl in Hl; try discriminate. simpl in Hg.
-      destruct r; try discriminate. destruct (merge_result kvs l); [|discriminate]. inversion Hg; reflexivity.
-    + destruct (lookup name kvs) as [next|]; [|discriminate].
-      destruct (graft fuel next restp (rs ++ extra)) as [[next' rs']|] eqn:E; [|discriminate].
-      inversion Hg; subst. eapply IH; eauto.
-    + destruct (lookup "__typename" kvs) as [[| | |s| |]|]; try discriminate.
-      destruct (String.eqb s ty).
-      * eapply IH; eauto.
-      * inversion Hk; subst ks. destruct rs; [|discriminate]. inversion Hg; reflexivity.
+  intros path l HF ks rs extra node' rest Hk Hl Hg.
+  rewrite extract_keys_arr in Hk. rewrite graft_arr in Hg.
+  destruct (graft_list (graft path) l (rs ++ extra)) as [[l' rs']|] eqn:Eg; [|discriminate].
+  inversion Hg; subst node' rest. clear Hg.
+  revert ks Hk rs extra l' rs' Hl Eg.
+  induction HF as [|e t He Ht IHl]; intros ks Hk rs extra l' rs' Hl Eg; simpl in Hk, Eg.
+  - inversion Hk; subst ks. destruct rs; [|discriminate]. inversion Eg; reflexivity.
+  - apply concat_opt_cons in Hk as [k1 [k2 [Hk1 [Hk2 ->]]]].
+    rewrite app_length in Hl. destruct (split_length rs _ _ Hl) as [r1 [r2 [-> [L1 L2]]]].
+    rewrite <- app_assoc in Eg.
+    destruct (graft path e (r1 ++ r2 ++ extra)) as [[e' rs1]|] eqn:E1; [|discriminate].
+    pose proof (He k1 r1 (r2 ++ extra) e' rs1 Hk1 L1 E1) as ->.
+    destruct (graft_list (graft path) t (r2 ++ extra)) as [[t' rs2]|] eqn:E2; [|discriminate].
+    inversion Eg; subst. eapply IHl; eauto.
 Qed.
 
-(** Results tagged with the key they answer end up on the object that key came from: after grafting
-    [tag k_i] for the keys k_1..k_n that extractKeys returned, reading the tag back along the same path
-    returns k_1..k_n.  ([tagname] is any key that no object on the way already has.) *)
-Definition tag (tagname : string) (k : json) : json := JObj [(tagname, k)].
-
-Fixpoint extract_at (key : string) (fuel : nat) (node : json) (path : list step) : option (list json) :=
-  match fuel with
-  | O => None
-  | S fuel' =>
-      match node with
-      | JNull => Some []
-      | JArr l => concat_opt (map (fun e => extract_at key fuel' e path) l)
-      | JObj kvs =>
-          match path with
-          | [] => match lookup key kvs with Some k => Some [k] | None => None end
-          | SField name :: rest =>
-              match lookup name kvs with
-              | None => None
-              | Some next => extract_at key fuel' next rest
-              end
-          | SType t :: rest =>
-              match lookup "__typename" kvs with
-              | Some (JStr s) => if String.eqb s t then extract_at key fuel' node rest else Some []
-              | _ => None
-              end
-          end
-      | _ => match path with [] => None | _ => Some [] end
-      end
-  end.
-
-Lemma extract_at_federation : forall fuel node path,
-  extract_at federation_field fuel node path = extract_keys true fuel node path.
+Theorem graft_consumes : forall path node, consumes path node.
 Proof.
-  induction fuel as [|fuel IH]; intros node path; simpl; auto.
-  destruct node; auto.
-  - f_equal. apply map_ext. intros e. apply IH.
-  - destruct path as [|[name|ty] rest]; auto.
-    + destruct (lookup name l); auto.
-    + destruct (lookup "__typename" l) as [[| | |s| |]|]; auto. destruct (String.eqb s ty); auto.
+  induction path as [|s rest IHp]; intros node.
+  - induction node using json_ind'; try (intros ks rs extra node' rest Hk Hl Hg; simpl in Hk; discriminate).
+    + intros ks rs extra node' rest Hk Hl Hg. simpl in Hk, Hg. inversion Hk; subst ks.
+      destruct rs; [|discriminate]. inversion Hg; reflexivity.
+    + apply consumes_arr; assumption.
+    + intros ks rs extra node' rest Hk Hl Hg. rewrite extract_keys_nil_obj in Hk. rewrite graft_nil_obj in Hg.
+      destruct (lookup federation_field l) as [k|]; [|discriminate]. inversion Hk; subst ks.
+      destruct rs as [|r [|]]; simpl in Hl; try discriminate. simpl in Hg.
+      destruct r; try discriminate. destruct (merge_result l l0); [|discriminate]. inversion Hg; reflexivity.
+  - destruct s as [name|t].
+    + induction node using json_ind';
+        try (intros ks rs extra node' rest0 Hk Hl Hg; simpl in Hk, Hg; inversion Hk; subst ks;
+             destruct rs; [|discriminate]; inversion Hg; reflexivity).
+      * apply consumes_arr; assumption.
+      * intros ks rs extra node' rest0 Hk Hl Hg. rewrite extract_keys_field_obj in Hk. rewrite graft_field_obj in Hg.
+        destruct (lookup name l) as [next|]; [|discriminate].
+        destruct (graft rest next (rs ++ extra)) as [[next' rs']|] eqn:E; [|discriminate].
+        inversion Hg; subst. eapply IHp; eauto.
+    + induction node using json_ind';
+        try (intros ks rs extra node' rest0 Hk Hl Hg; simpl in Hk, Hg; inversion Hk; subst ks;
+             destruct rs; [|discriminate]; inversion Hg; reflexivity).
+      * apply consumes_arr; assumption.
+      * intros ks rs extra node' rest0 Hk Hl Hg. rewrite extract_keys_type_obj in Hk. rewrite graft_type_obj in Hg.
+        destruct (lookup "__typename" l) as [[| | |s| |]|]; try discriminate.
+        destruct (String.eqb s t).
+        -- eapply IHp; eauto.
+        -- inversion Hk; subst ks. destruct rs; [|discriminate]. inversion Hg; reflexivity.
 Qed.
